@@ -210,6 +210,11 @@ func runLongFilters(t *testing.T, rc *core.RunCtx) {
 		case k < 55:
 			depth := 1 + tp.Intn(4)
 			at := honestTip.Ancestor(honestTip.Height - int32(depth))
+			// A hard-coded filter-header checkpoint fixes its block: no
+			// honest reorganisation replaces a block at or below one.
+			if hard && at.Height < int32(n/1000*1000) {
+				continue
+			}
 			nt := w.mineChain(at, depth+1+tp.Intn(2), time.Minute, time.Now().Add(-time.Duration(tp.Intn(50))*time.Second), 0, "", &plan.salt, 30)
 			if nt.CumWork.Cmp(honestTip.CumWork) <= 0 {
 				continue
